@@ -46,7 +46,7 @@ class Denoter:
             if var.name not in env:
                 raise Unsupported(f"free variable {var.name} has no value")
             return env[var.name]
-        if var.name in bound:
+        if var.name in bound and not var.star:
             raise Unsupported(f"ill-scoped: marked {var} under Sum over {var.name}")
         return 1 if var.star else 0
 
@@ -56,9 +56,7 @@ class Denoter:
         do = {}
         for i in var.interventions:
             if i.star:
-                if i.name in bound:
-                    raise Unsupported(f"ill-scoped: +{i.name} subscript under Sum over {i.name}")
-                val = 1
+                val = 1  # '+V' is always the literal other value, also under a Sum over V
             else:
                 val = ienv.get(i.name, 0)
             if i.name in do and do[i.name] != val:
